@@ -59,6 +59,7 @@ def run(F, rep, tier):
     lexer_mode_rule(F, rep)
     skipper_rule(F, rep)
     layout_siblings_rule(F, rep)
+    utf8_mask_rule(F, rep)
     char_class_rule(F, rep)
     binary_action_rule(F, rep)
     a = lalr.build_lalr(g)
@@ -960,3 +961,37 @@ def layout_siblings_rule(F, rep):
                           "would have skipped it" % short, "%s:%s" % (h["file"], h["line"]))
     if not n_places:
         rep.ok(rid, "layout", "no other place of the lexer steps over white space")
+
+
+def utf8_mask_rule(F, rep):
+    """R06.12: `\\uXXXX` / `\\UXXXXXX` escapes in string literals are part of the surface syntax; the lexer encodes the code point as UTF-8 by hand, in four places (one to four
+    bytes, and the four bytes of a surrogate pair).  UTF-8 fixes the masks: a continuation byte is `(bits & 0x3F) | 0x80`, the lead bytes are `(bits & 0x1F) | 0xC0`,
+    `(bits & 0x0F) | 0xE0`, `(bits & 0x07) | 0xF0`.  Every `(x & M) | T` of the encoder must be one of these pairs (a sibling with another mask yields bytes that are not the
+    code point - or not UTF-8 at all, and the literal is rejected)."""
+    from facts import find_hir, strip
+    rid = rep.rule("R06.12", "the hand-written UTF-8 encoder of string escapes pairs every tag with its mask: (.. & 0x3F) | 0x80, (.. & 0x1F) | 0xC0, (.. & 0x0F) | 0xE0, (.. & 0x07) | 0xF0")
+    PAIRS = {0x80: 0x3F, 0xC0: 0x1F, 0xE0: 0x0F, 0xF0: 0x07}
+    n = 0
+    for name, h in sorted(F.hir.items()):
+        if not name.startswith("dmntk_feel_parser::lexer::") or "consume_unicode" not in name.split("::")[-1] or name.split("::")[-1] == "consume_unicode_literal":
+            continue
+        k = 0
+        for b, _ in find_hir(h["body"], lambda x: x.get("k") == "Binary" and x.get("op") == "|"):
+            tag, lhs = strip(b["b"]), strip(b["a"])
+            while lhs.get("k") in ("Cast", "Paren"):
+                lhs = strip(lhs.get("e", {}))
+            if tag.get("k") != "Lit" or tag.get("v") not in PAIRS or lhs.get("k") != "Binary" or lhs.get("op") != "&":
+                continue
+            mask = strip(lhs["b"])
+            if mask.get("k") != "Lit" or not isinstance(mask.get("v"), int):
+                continue
+            n += 1
+            key = "utf8:%s#%d" % (name.split("::")[-1], k)
+            k += 1
+            if mask["v"] == PAIRS[tag["v"]]:
+                rep.ok(rid, key, "(.. & 0x%02X) | 0x%02X" % (mask["v"], tag["v"]))
+            else:
+                rep.violation(rid, key, "%s builds a UTF-8 byte as (.. & 0x%02X) | 0x%02X at line %s; the mask of the tag 0x%02X is 0x%02X: the bytes are not the encoding of the code point "
+                              "(a string literal such as \"\\uD83D\\uDE4F\" is rejected or denotes another character)" % (name.split("::")[-1], mask["v"], tag["v"], b.get("l"), tag["v"], PAIRS[tag["v"]]),
+                              "%s:%s" % (h["file"], b.get("l")))
+    rep.floor(rid, "UTF-8 byte constructions in the escape decoder", n, 13)
